@@ -18,4 +18,5 @@ CONSTANTS
   Dev = {}
 SPECIFICATION GenSpec
 INVARIANT Emit
+CONSTRAINT GenPrune
 CHECK_DEADLOCK FALSE
